@@ -183,7 +183,40 @@ func ruleTailFrame(c *Ctx) {
 				continue // the removal must depend on the tailcall flag alone
 			}
 			for _, cd := range conds {
-				if cd.V == ssa.Value(tailParam) && cd.Sense && host != nil && gg.Dominates(host, cl) {
+				flagOK := cd.V == ssa.Value(tailParam)
+				if ph, ok := cd.V.(*ssa.Phi); ok && !flagOK {
+					// the flag may have been cleared on exactly one path: the host function yielded (result < 0),
+					// and the call is turned into an ordinary one — its frame's ReturnBase is redirected to its Base
+					// so that the RETURN following the TAILCALL hands the resume values on (F45)
+					flagOK = true
+					for k, e := range ph.Edges {
+						if e == ssa.Value(tailParam) {
+							continue
+						}
+						cleared, isFalse := constBool(e)
+						pred := ph.Block().Preds[k]
+						yielded, redirected := false, false
+						for _, pc := range gg.CondsOnEdge(pred, ph.Block()) {
+							if b, ok := pc.V.(*ssa.BinOp); ok && b.Op == token.LSS && pc.Sense {
+								if k0, ok := constInt(b.Y); ok && k0 == 0 && host != nil && stripConv(b.X) == host.(ssa.Value) {
+									yielded = true
+								}
+							}
+						}
+						rbF, baseF := p.Field("lua", "callFrame", "ReturnBase"), p.Field("lua", "callFrame", "Base")
+						for _, in := range pred.Instrs {
+							if st, ok := isFieldStore(in, rbF); ok {
+								if _, ok := loadsField(st.Val, baseF); ok {
+									redirected = true
+								}
+							}
+						}
+						if !(isFalse && !cleared && yielded && redirected) {
+							flagOK = false
+						}
+					}
+				}
+				if flagOK && cd.Sense && host != nil && gg.Dominates(host, cl) {
 					// the test itself must dominate every return
 					domAll := true
 					allInstrs(fn, func(r ssa.Instruction) {
@@ -195,6 +228,16 @@ func ruleTailFrame(c *Ctx) {
 				}
 			}
 		}
+		// F45: a host function that yields from tail position must keep its caller's frame (the flag is cleared)
+		hasException := false
+		for _, cl := range callsTo(fn, remove) {
+			for _, cd := range gg.CondsAtInstr(cl) {
+				if _, isPhi := cd.V.(*ssa.Phi); isPhi {
+					hasException = true
+				}
+			}
+		}
+		c.check(hasException && okRem, R, "callGFunction:yield-in-tail-position-keeps-caller", p.pos(fn.Pos()), "a yielding host function is not tail called: the caller's frame stays and receives the resume values", "callGFunction removes the caller's frame although the host function yielded: a coroutine whose body ends in 'return coroutine.yield(…)' is left without frames and the next resume dereferences a nil frame")
 		c.check(okRem, R, "callGFunction:tail→RemoveCallerFrame", p.pos(fn.Pos()), "with tailcall set the caller frame is removed after the host function returned, on every path", "callGFunction does not remove the caller's frame on every tail-call path: host-function tail calls consume call-stack space")
 		isPop := func(in ssa.Instruction) bool {
 			tn, m := invokeName(in)
